@@ -555,7 +555,9 @@ def gen_cases(rng, tier, tmpdir):
             valid = False
         if rty == "text" and not valid:
             rty = "binary"
-        ro = ("RO", rty, rng.choice(EOFS), rng.random() < 0.5)
+        # no eof_action(reset) here: if (under a defect) the written bytes are not valid UTF-8, get_char
+        # with eof_action(reset) loops forever inside the builtin, where the watchdog cannot reach it
+        ro = ("RO", rty, rng.choice(["eof_code", "eof_code", "error"]), rng.random() < 0.5)
         if rng.random() < 0.5:
             # read everything back
             if rty == "text":
